@@ -14,12 +14,65 @@ import (
 
 var mutGlobalsOnce sync.Once
 
+var initOnly map[*ssa.Function]bool
+
 func isInitFunc(f *ssa.Function) bool {
 	n := f.Name()
-	return n == "init" || strings.HasPrefix(n, "init#") || (f.Parent() != nil && isInitFunc(f.Parent()))
+	if n == "init" || strings.HasPrefix(n, "init#") || (f.Parent() != nil && isInitFunc(f.Parent())) {
+		return true
+	}
+	return initOnly[f]
+}
+
+// computeInitOnly: unexported helpers all of whose callers are package initialisers run at init time only.
+func computeInitOnly(P *Prog) {
+	initOnly = map[*ssa.Function]bool{}
+	callers := map[*ssa.Function][]*ssa.Function{}
+	escapes := map[*ssa.Function]bool{}
+	for _, f := range P.Funcs {
+		for _, b := range f.Blocks {
+			for _, ins := range b.Instrs {
+				if c, ok := ins.(ssa.CallInstruction); ok {
+					if g := c.Common().StaticCallee(); g != nil {
+						callers[g] = append(callers[g], f)
+					}
+				}
+				// a function used as a value may be called from anywhere
+				for _, op := range ins.Operands(nil) {
+					if op == nil || *op == nil {
+						continue
+					}
+					if g, ok := (*op).(*ssa.Function); ok {
+						if c, isCall := ins.(ssa.CallInstruction); !isCall || c.Common().Value != g {
+							escapes[g] = true
+						}
+					}
+				}
+			}
+		}
+	}
+	for changed := true; changed; {
+		changed = false
+		for _, f := range P.Funcs {
+			if initOnly[f] || escapes[f] || f.Object() == nil || f.Object().Exported() || len(callers[f]) == 0 {
+				continue
+			}
+			all := true
+			for _, c := range callers[f] {
+				if !isInitFunc(c) {
+					all = false
+				}
+			}
+			if all {
+				initOnly[f] = true
+				changed = true
+			}
+		}
+	}
 }
 
 func (P *Prog) computeMutableGlobals() {
+	computeInitOnly(P)
 	P.mutGlobals = map[string][]string{}
 	for _, k := range P.FuncKeys {
 		f := P.Funcs[k]
@@ -113,6 +166,16 @@ func (e *Enc) frameCheck(st *State, ins *ssa.Store, a Val) {
 	if e.pkg == nil {
 		return
 	}
+	// per-run state must not escape: a *runInfoStruct is never stored anywhere but a local variable
+	if pkgShort(e.pkg) == "vm" {
+		if pt, ok := ins.Val.Type().(*types.Pointer); ok {
+			if n, ok := pt.Elem().(*types.Named); ok && n.Obj().Name() == "runInfoStruct" {
+				if al, ok := ins.Addr.(*ssa.Alloc); !ok || !e.private[al] {
+					e.oblige("frame", "escape.runInfo", e.frameProps(), st.reach, TFalse, "a pointer to the per-run state (runInfoStruct) is stored outside the activation", ins.Pos())
+				}
+			}
+		}
+	}
 	pk := pkgShort(e.pkg)
 	if pk != "vm" && pk != "parser" && pk != "env" && pk != "core" && pk != "astutil" && pk != "ast" {
 		return
@@ -162,12 +225,50 @@ func (e *Enc) frameCheckMap(st *State, ins ssa.Instruction, m Term) {
 	if mv == nil {
 		return
 	}
-	if u, ok := mv.(*ssa.UnOp); ok {
-		if g, ok := u.X.(*ssa.Global); ok && g.Pkg != nil && isAnkoPkg(g.Pkg.Pkg) {
-			name := pkgShort(g.Pkg.Pkg) + "." + g.Name()
-			e.oblige("frame", "globalmap."+name, e.frameProps(), st.reach, TFalse, "update of package-level map "+name+" outside init", ins.Pos())
+	if g := globalMapRoot(mv); g != nil {
+		name := pkgShort(g.Pkg.Pkg) + "." + g.Name()
+		e.oblige("frame", "globalmap."+name, e.frameProps(), st.reach, TFalse, "update of package-level map "+name+" (or of a table stored in it) outside init", ins.Pos())
+	}
+}
+
+// globalMapRoot: the package-level map variable a map value was read from, directly or through lookups
+// (env.Packages[name] is a table stored in the package-level map env.Packages).
+func globalMapRoot(v ssa.Value) *ssa.Global {
+	for depth := 0; depth < 6; depth++ {
+		switch x := v.(type) {
+		case *ssa.UnOp:
+			if g, ok := x.X.(*ssa.Global); ok && g.Pkg != nil && isAnkoPkg(g.Pkg.Pkg) {
+				if _, isMap := g.Type().(*types.Pointer).Elem().Underlying().(*types.Map); isMap {
+					return g
+				}
+				return nil
+			}
+			if a, ok := x.X.(*ssa.Alloc); ok {
+				// a local variable assigned exactly once
+				var src ssa.Value
+				n := 0
+				for _, r := range *a.Referrers() {
+					if s, ok := r.(*ssa.Store); ok && s.Addr == a {
+						src = s.Val
+						n++
+					}
+				}
+				if n != 1 {
+					return nil
+				}
+				v = src
+				continue
+			}
+			return nil
+		case *ssa.Lookup:
+			v = x.X
+		case *ssa.Extract:
+			v = x.Tuple
+		default:
+			return nil
 		}
 	}
+	return nil
 }
 
 func (e *Enc) frameAtReturn(st *State, ins *ssa.Return) {
@@ -292,8 +393,17 @@ func (e *Enc) ownStoreTargets() map[string][]Term {
 
 func (e *Enc) checkModifies(st *State, ins *ssa.Return) {
 	for _, g := range e.frameGoals(st, nil) {
-		e.oblige("frame", "modifies."+g.name, e.c.Props, st.reach, g.goal, g.desc, ins.Pos())
+		e.oblige("frame", "modifies."+g.name, e.framePropsFor(g.name), st.reach, g.goal, g.desc, ins.Pos())
 	}
+}
+
+// framePropsFor: frame obligations about the parsed tree and about package-level state also belong to C14.
+func (e *Enc) framePropsFor(comp string) []string {
+	props := e.c.Props
+	if strings.HasPrefix(comp, "H:ast.") || strings.HasPrefix(comp, "G:") {
+		props = append(append([]string(nil), props...), "C14")
+	}
+	return props
 }
 
 // frameGoals: for every component that differs from its entry value, the formula "only locations named in
@@ -379,7 +489,7 @@ func (e *Enc) frameGoals(st *State, exempt map[string][]Term) []frameGoal {
 	}
 	for _, name := range sortedKeys(st.heaps) {
 		cur := st.heaps[name]
-		if whole[name] || strings.HasPrefix(name, "X:defer_") || name == "X:protected" || name == "X:section" || name == "X:held" {
+		if whole[name] || strings.HasPrefix(name, "X:defer_") || name == "X:protected" || name == "X:section" || name == "X:held" || strings.HasPrefix(name, "X:tr") {
 			continue
 		}
 		srt := e.compSort[name]
